@@ -62,5 +62,22 @@ CHECKS = {
         note="Positions where the statement is silent (N && T, N || F, !N, N && E) are modelled as unspecified and skipped; sub-expressions fully parenthesised.",
         design_ref="DESIGN.md §4 C02",
     ),
+    "C09": dict(
+        technique="property-based testing (Hypothesis): type-directed program generation against an independent reference evaluator + metamorphic laws",
+        category="exploration",
+        text="Generated well-typed programs over lists/maps/strings/macros (indexes over all of int64, duplicate keys, regex fragment) evaluated by both "
+             "runners and by vf.refcel (no code shared with celpy); mismatches localised to the smallest disagreeing sub-expression; the statement's laws "
+             "as metamorphic relations on bound values; string predicates vs native.",
+        note="Trusts vf.refcel (written from the CEL definition) and vf.remini (fuzzed against RE2 on the fragment); has() of an error/non-map, string(double) etc. are unspecified and skipped.",
+        design_ref="DESIGN.md §4 C09",
+    ),
+    "C13": dict(
+        technique="property-based testing (Hypothesis) + exhaustive root-production templates: exact result class and type(e)==N against the reference value's CEL type",
+        category="exploration",
+        text="Every operator/function/macro/conversion once at the root over 3 fixed activations (exhaustive template table) plus generated nested programs: exact "
+             "class skeleton of the returned value, type(e)==N for the 12 names, type(x op y)==type(x) for closed operators; both runners.",
+        note="CEL type taken from vf.refcel's value; programs whose reference outcome is an error are skipped.",
+        design_ref="DESIGN.md §4 C13",
+    ),
 }
 NOT_APPLICABLE = {}
